@@ -48,9 +48,9 @@ func init() {
 }
 
 func c02Cases(tier string, seed int64) []string {
-	n := 6
+	n := 12
 	if tier == "thorough" {
-		n = 120
+		n = 160
 	}
 	var l []string
 	for i := 0; i < n; i++ {
@@ -112,6 +112,14 @@ func c02Run(c *fw.C, caseID string) {
 	P.OnBlock = func(b *nom.AccountBlock, _ db.Patch, err error) { onBlock(b, err) }
 	for i := 0; i < nMomentums; i++ {
 		w.Step(6)
+		if r.Intn(20) == 0 {
+			// a burst above the per-momentum limit: some blocks wait in the producer's pool for a later momentum,
+			// so the producer evaluated them at an older frontier than the follower will have when it applies them
+			for k := 0; k < 110+r.Intn(40); k++ {
+				w.One()
+			}
+			c.Count("bursts_above_momentum_limit", 1)
+		}
 		skip := 0
 		if r.Intn(7) == 0 {
 			skip = 1 + r.Intn(3)
